@@ -8,6 +8,9 @@ COMMON_TB = [
 ]
 
 
+from extras import c13_extra
+
+
 def ok_value(case, impl):
     return not (impl.startswith("err") or impl.startswith("panic") or impl in ("crash", "hang", "badcase"))
 
@@ -32,6 +35,18 @@ HIST_RULE = ("message histories: 1200 (thorough 30000) random histories of 2..8 
              "composite and a tagged composite nesting a positional one")
 
 PROPS = {
+    "C13": {
+        "topics": [],
+        "extra": c13_extra,
+        "nontrivial": lambda c, i: True,
+        "rule": "proof obligations over the generated lock summary, cross-checked by -race stress runs: 2/4/8 (thorough up to 16) goroutines x 1500..4000 (thorough 10000..50000) "
+                "random operations each over the 14 Message and 13 Composite operations of the property on one shared message and one shared composite; "
+                "evaluations = operations issued; non-trivial = Pack results collected and checked to decode to written values",
+        "trusted_base": COMMON_TB[:1] + ["translator: Gen/Locks.v is produced by a purely syntactic go/ast analysis (lock pattern, guarded-field accesses, same-receiver calls, transitive closure through non-locking helpers, foreign accesses) - trusted, cross-checked by the race detector",
+                                          "Go race detector (go build -race) and scheduler for the stress runs"],
+        "assumptions": ["the Go memory model, the runtime's concurrent-map fault detection and the scheduler are not modelled",
+                        "GetString/GetBytes/GetField/GetMTI read the field map without the lock: they are not among the operations the property lists"],
+    },
     "C12": {
         "topics": ["hist", "msg"],
         "nontrivial": lambda c, i: "(json)" in c and " ok x7b" in (" " + i),
